@@ -592,7 +592,15 @@ func (t *tracer) trace(v ssa.Value, path []string) []Origin {
 // scalar we follow all stores; for struct objects with a field path we follow
 // the stores to that field.
 func (t *tracer) traceAlloc(a *ssa.Alloc, path []string, load ssa.Instruction) []Origin {
-	stores := t.c.storesTo(a, path)
+	all := t.c.storesTo(a, path)
+	var stores []storeRec
+	for _, s := range all {
+		// `*x = *x` (named results being "returned") carries no information
+		if u, ok := s.Val.(*ssa.UnOp); ok && u.Op == token.MUL && u.X == ssa.Value(a) && len(path) == 0 {
+			continue
+		}
+		stores = append(stores, s)
+	}
 	if stores == nil {
 		return []Origin{{Kind: "alloc", Root: a, Val: a, Path: path}}
 	}
@@ -608,7 +616,15 @@ func (t *tracer) traceAlloc(a *ssa.Alloc, path []string, load ssa.Instruction) [
 	// zero value is also possible if some path has no store - keep it simple:
 	// report a "zero" origin when the alloc is a struct field path (fields start zeroed)
 	if len(path) > 0 {
-		out = append(out, Origin{Kind: "zero", Root: a, Val: a, Path: path})
+		// the zero value survives only if some path from the allocation to an
+		// exit of the function passes no store of the field
+		set := map[ssa.Instruction]bool{}
+		for _, s := range stores {
+			set[s.Instr] = true
+		}
+		if reach, _ := pathExists(a.Parent(), a, func(i ssa.Instruction) bool { _, ok := i.(*ssa.Return); return ok }, func(i ssa.Instruction) bool { return set[i] }); reach {
+			out = append(out, Origin{Kind: "zero", Root: a, Val: a, Path: path})
+		}
 	}
 	return out
 }
@@ -643,6 +659,13 @@ func (c *Ctx) storesTo(a ssa.Value, path []string) []storeRec {
 				if i.X == addr && len(rest) > 0 && fieldName(addr.Type(), i.Field) == rest[0] {
 					walk(i, rest[1:], depth+1)
 				}
+			case *ssa.IndexAddr:
+				// element of a small array literal ([]T{x}): treated as the value itself
+				if i.X == addr {
+					if _, isArr := derefType(addr.Type()).Underlying().(*types.Array); isArr {
+						walk(i, rest, depth+1)
+					}
+				}
 			}
 		}
 	}
@@ -662,7 +685,7 @@ func (t *tracer) traceCall(call *ssa.Call, idx int, path []string) []Origin {
 	if !strings.HasPrefix(fnPkgPath(f), modPath) {
 		return []Origin{generic}
 	}
-	if countInstrs(f) > 60 {
+	if countInstrs(f) > 60 || takesLock(f) {
 		return []Origin{generic}
 	}
 	// inline: origins of each return operand idx
@@ -676,7 +699,9 @@ func (t *tracer) traceCall(call *ssa.Call, idx int, path []string) []Origin {
 			continue
 		}
 		sub := &tracer{c: t.c, visited: map[ssa.Value]bool{}, inline: true, depth: t.depth}
-		ros := sub.trace(ret.Results[idx], nil)
+		// the requested field path is resolved inside the callee (constructors
+		// return a fresh object whose fields are stored from the parameters)
+		ros := sub.trace(ret.Results[idx], path)
 		for _, ro := range ros {
 			switch ro.Kind {
 			case "param":
@@ -686,13 +711,12 @@ func (t *tracer) traceCall(call *ssa.Call, idx int, path []string) []Origin {
 					simple = false
 					continue
 				}
-				mapped := t.trace(cc.Args[pi], append(append([]string{}, ro.Path...), path...))
+				mapped := t.trace(cc.Args[pi], append([]string{}, ro.Path...))
 				for i := range mapped {
 					mapped[i].ViaCall = append(mapped[i].ViaCall, fnKey(f))
 				}
 				out = append(out, mapped...)
-			case "const":
-				ro.Path = append(ro.Path, path...)
+			case "const", "zero":
 				ro.ViaCall = append(ro.ViaCall, fnKey(f))
 				out = append(out, ro)
 			default:
@@ -704,6 +728,20 @@ func (t *tracer) traceCall(call *ssa.Call, idx int, path []string) []Origin {
 		return []Origin{generic}
 	}
 	return out
+}
+
+// takesLock: the function locks a mutex (stateful operation: its result is
+// not a pure function of its arguments, never inlined by the origin tracer).
+func takesLock(f *ssa.Function) bool {
+	found := false
+	allInstrs(f, func(i ssa.Instruction) {
+		if ci, ok := i.(ssa.CallInstruction); ok {
+			if _, op, _ := lockOp(ci.Common()); op != 0 {
+				found = true
+			}
+		}
+	})
+	return found
 }
 
 func countInstrs(f *ssa.Function) int {
